@@ -209,6 +209,19 @@ def oracle_child(payload):
                     fails.append(("angle-abs", f"major axis at {a['pa']:.4f} from +y towards −x, theta = {P['theta'] % np.pi:.4f}"))
                 if not np.hypot(a["xc"] - P["xc"], a["yc"] - P["yc"]) <= 0.08:
                     fails.append(("centre-abs", f"centroid ({a['xc']:.3f},{a['yc']:.3f}) vs (xc, yc) = ({P['xc']:.3f},{P['yc']:.3f})"))
+                # the automatic guesses a prior is built from use the same convention as the renderers (priors.py: set_theta_guess,
+                # set_position_guess): measured on this very image
+                if P["ellip"] >= 0.3 and P["r_eff"] >= 2.0:
+                    import pysersic.priors as PR
+                    import warnings
+                    with warnings.catch_warnings():
+                        warnings.simplefilter("ignore")
+                        sp = PR.SourceProperties(img + np.random.default_rng(0).normal(0, 1e-4 * img.max(), img.shape))
+                    dg = abs(((float(sp.theta_guess) - P["theta"]) + np.pi / 2) % np.pi - np.pi / 2)
+                    if not dg <= 0.05:
+                        fails.append(("theta-guess", f"SourceProperties(image).theta_guess = {float(sp.theta_guess) % np.pi:.4f}, the image was rendered with theta = {P['theta'] % np.pi:.4f}"))
+                    if not np.hypot(float(sp.xc_guess) - P["xc"], float(sp.yc_guess) - P["yc"]) <= 0.1:
+                        fails.append(("position-guess", f"SourceProperties(image) position guess ({float(sp.xc_guess):.3f},{float(sp.yc_guess):.3f}) vs (xc, yc) = ({P['xc']:.3f},{P['yc']:.3f})"))
         except Exception as e:
             fails.append(("exception", f"{type(e).__name__}: {str(e)[:200]}"))
         out.append(dict(fails=fails))
